@@ -20,6 +20,12 @@
 (* intended behaviour is the other branch (DESIGN.md 3.1 "Deviations are    *)
 (* named"): DEVS = the current tree for generation / strict lane, DEVS = {} *)
 (* for the exhaustive check of the properties.                              *)
+(* Deviations: "L3" "LEAK" "ACT" "WINDOW" (key registry / opt-out hooks),    *)
+(* "L17" (ApplyValidatorChanges), "PCHOOK" (the delegation precompile works  *)
+(* on a keeper copy without hooks).  "ALWAYS" is not a deviation but the     *)
+(* design of the REPAIRED hooks (always schedule the opt-out and the pruning *)
+(* of a replaced key, hook on every replacement, no hold once the finish     *)
+(* epoch is cleared); with it the four hook deviations are moot.             *)
 (*                                                                         *)
 (* Properties C06, C07, C16 are evaluated by Tags(pre, post, ev, a, ok, G)  *)
 (* over OBSERVABLE states only (the same operator serves the bounded model  *)
@@ -107,7 +113,7 @@ IsActive(st, o) == st.info[o] /\ st.opted[o] /\ ~st.jailed[o]
 (* x/dogfood/keeper/impl_operator_hooks.go: AfterOperatorKeyReplaced        *)
 (***************************************************************************)
 RetireKey(st, old) ==
-  IF Retain(st, old) THEN [st EXCEPT !.qPrune = QAppend(@, st.epoch + st.N, old)]
+  IF "ALWAYS" \in DEVS \/ Retain(st, old) THEN [st EXCEPT !.qPrune = QAppend(@, st.epoch + st.N, old)]
   ELSE [st EXCEPT !.rev[old] = NoOp, !.wasAct[old] = FALSE]
 
 SetKeyCore(st, o, k) ==
@@ -123,7 +129,7 @@ SetKeyCore(st, o, k) ==
             ELSE IF ~already THEN RetireKey(s2, old)
             \* DEV "LEAK": a second replacement inside one epoch calls no hook, the intermediate
             \* key's reverse lookup stays for ever.  Intended: retire it like the first one.
-            ELSE IF "LEAK" \in DEVS THEN s2 ELSE RetireKey(s2, old)
+            ELSE IF "LEAK" \in DEVS /\ "ALWAYS" \notin DEVS THEN s2 ELSE RetireKey(s2, old)
   IN Ok(s3)
 
 \* operator msg server OptIntoAVS (own cache context) -> OptInWithConsKey
@@ -154,7 +160,8 @@ OptOut(st, o) ==
   LET s1 == [st EXCEPT !.hasUsd[o] = FALSE, !.usd[o] = N0, !.opted[o] = FALSE, !.removing[o] = TRUE]
       e  == s1.epoch + s1.N
       sched == [s1 EXCEPT !.qOpt = QAppend(@, e, o), !.finish = Put(@, o, e)]
-  IN IF "L3" \in DEVS
+  IN IF "ALWAYS" \in DEVS THEN Ok(sched)
+     ELSE IF "L3" \in DEVS
      \* code: only the CURRENT key is looked up; if it is not in the validator set the reverse
      \* lookup is deleted and nothing is scheduled: marker and forward entries stay for ever
      THEN IF InVals(s1, key) THEN Ok(sched) ELSE Ok([s1 EXCEPT !.rev[key] = NoOp, !.wasAct[key] = FALSE])
@@ -172,7 +179,7 @@ Delegate(st, o, x) ==
 PlaceHold(st, id, e) ==
   [st EXCEPT !.qUndel = QAppend(@, e, id), !.mat = Put(@, id, e), !.hold = Put(@, id, HoldOf(st, id) + 1)]
 
-Undelegate(st, s, o, x) ==
+Undelegate(st, s, o, x, path) ==
   LET st0 == [st EXCEPT !.nrec = @ + 1]
       id  == st.nrec + 1
   IN
@@ -181,13 +188,16 @@ Undelegate(st, s, o, x) ==
   LET s1 == [st0 EXCEPT !.stake[o] = NSub(@, x), !.del[<<s, o>>] = NSub(@, x),
                         !.recs = Put(@, id, [s |-> s, o |-> o, amt |-> x, start |-> st.h])]
   IN
+  \* DEV "PCHOOK": app.go hands the precompiles a COPY of the delegation keeper taken before SetHooks:
+  \* an undelegation that arrives through the delegation precompile (path "pc") calls no hook at all
+  IF path = "pc" /\ "PCHOOK" \in DEVS THEN Ok(s1) ELSE
   IF s1.removing[o] THEN
      LET e == IF o \in DOMAIN s1.finish THEN s1.finish[o] ELSE -1 IN
      \* finish epoch -1 -> nil store key -> panic "key is nil" (the transaction is dropped)
      \* DEV "WINDOW": AfterEpochEnd deletes the finish epoch in BeginBlock, the marker is cleared only
      \* in EndBlock: in the block that completes an opt-out the lookup misses as well.  Intended: the
      \* opt-out completes at the end of this very block, nothing needs to be held.
-     IF e < 0 THEN (IF "WINDOW" \notin DEVS /\ o \in Elems(s1.pOpt) THEN Ok(s1) ELSE Fail(st0, "PANIC"))
+     IF e < 0 THEN (IF "ALWAYS" \in DEVS \/ ("WINDOW" \notin DEVS /\ o \in Elems(s1.pOpt)) THEN Ok(s1) ELSE Fail(st0, "PANIC"))
      ELSE Ok(PlaceHold(s1, id, e))
   ELSE IF s1.fwd1[o] = NoKey THEN Ok(s1)
   ELSE IF ~(InVals(s1, s1.fwd1[o]) \/ InVals(s1, s1.prev[o])) THEN Ok(s1)
@@ -288,7 +298,7 @@ Apply(st, ev, a) ==
     [] ev = "OptOut"       -> Quiet(WithCache(st, OptOut(st, a.o)))
     [] ev = "SetKey"       -> Quiet(SetKey(st, a.o, a.k))
     [] ev = "Delegate"     -> Quiet(Delegate(st, a.o, a.x))
-    [] ev = "Undelegate"   -> Quiet(Undelegate(st, a.s, a.o, a.x))
+    [] ev = "Undelegate"   -> Quiet(Undelegate(st, a.s, a.o, a.x, IF "path" \in DOMAIN a THEN a.path ELSE "keeper"))
     [] ev = "Jail"         -> Quiet(SetJailed(st, a.k, TRUE))
     [] ev = "Unjail"       -> Quiet(SetJailed(st, a.k, FALSE))
     [] ev = "UpdateParams" -> Quiet(UpdateParams(st, a.maxVals, a.n))
